@@ -284,7 +284,8 @@ class String:
                             r = r.simple_form
                         result.append(r)
                     except ParseError as m:
-                        self.parse_error(m.args[0], stag, text, l_)
+                        # the message names the start tag: report its line
+                        self.parse_error(m.args[0], stag, text, sloc)
 
                     return start
 
